@@ -12,7 +12,7 @@ ASSUMPTIONS = ["TLS-active configurations are reached through a real in-process 
 RULE = ("conv probe, EXHAUSTIVE over the configuration space: 5 extension flags x size limit {0,N} x recipient limit {0,N} x TLS "
         "{none, available, active} x AllowInsecureAuth x backend {auth-capable, not} x {SMTP, LMTP} = 3072 configurations; in each: "
         "EHLO/LHLO, then one probe command per extension (SMTPUTF8, REQUIRETLS, BODY=BINARYMIME, RET/ENVID, NOTIFY, ORCPT, RRVS, AUTH, "
-        "STARTTLS), plus a HELO conversation; capability lines compared as an ordered list with the specification table, probe "
+        "STARTTLS), the same probes with keywords and values in another letter case, plus a HELO conversation; capability lines compared as an ordered list with the specification table, probe "
         "replies with the 504 rule. non-trivial = every case (a capability reply is produced); distinct = distinct configuration")
 THEOREMS = ["C12_caps_exact", "C12_helo_none"]
 nontrivial = lambda case, ans: True
@@ -32,8 +32,36 @@ PROBES = [b"MAIL FROM:<s@x> SMTPUTF8", b"RSET", b"MAIL FROM:<s@x> REQUIRETLS", b
           b"STARTTLS", b"NOOP"]
 
 
+def respell(p, rng):
+    """the same probe with keywords and values in another letter case (ESMTP keywords and most values are case-insensitive)"""
+    if p in (b"RSET", b"NOOP", b"STARTTLS") or p.startswith(b"AUTH"):
+        return p
+    head, _, params = p.partition(b"> ")
+    if not params:
+        return p
+    how = rng.randrange(3)
+    if how == 0:
+        q = params.lower()
+    elif how == 1:
+        q = bytes(c ^ 0x20 if (chr(c).isalpha() and rng.randrange(2)) else c for c in params)
+    else:
+        q = params.title()
+    # values that are not case-insensitive keep their spelling: the xtext/addr part of ORCPT, ENVID, the RRVS timestamp
+    if b"ORCPT=" in params.upper() or b"RRVS=" in params.upper():
+        k, _, v = params.partition(b"=")
+        kq = q[:len(k)]
+        if b"ORCPT" in k.upper():
+            t, _, a = v.partition(b";")
+            return head + b"> " + kq + b"=" + q[len(k) + 1:len(k) + 1 + len(t)] + b";" + a
+        return head + b"> " + kq + b"=" + v
+    if b"ENVID=" in params.upper():
+        i = params.upper().index(b"ENVID=")
+        return head + b"> " + q[:i + 6] + params[i + 6:]
+    return head + b"> " + q
+
+
 def groups(tier, rng):
-    cases, helo = [], []
+    cases, helo, variants = [], [], []
     for utf8, reqtls, binmime, dsn, rrvs, mm, mr, tls, ins, auth, lmtp in itertools.product(
             (0, 1), (0, 1), (0, 1), (0, 1), (0, 1), (0, 77), (0, 3), ("none", "avail", "implicit"), (0, 1), (0, 1), (0, 1)):
         cfg = dict(utf8=utf8, reqtls=reqtls, binmime=binmime, dsn=dsn, rrvs=rrvs, maxmsg=mm, maxrcpt=mr, tls=tls, insecure=ins,
@@ -47,11 +75,19 @@ def groups(tier, rng):
                 continue
             c.add(p + b"\r\n")
         cases.append(c.case(seg="line") + "\tTAG=probe")
+        v = g.Conv(cfg)
+        v.add((b"LHLO" if lmtp else b"EHLO") + b" probe.example\r\n")
+        for p in PROBES:
+            if p == b"STARTTLS":
+                continue
+            v.add(respell(p, rng) + b"\r\n")
+        variants.append(v.case(seg="line") + "\tTAG=probe")
         if not lmtp:
             h = g.Conv(cfg)
             h.add(b"HELO probe.example\r\n"); h.add(b"NOOP\r\n")
             helo.append(h.case(seg="line"))
     return [Group("conv/ehlo-all-configurations", cases, exhaustive=True, project=project, theorems=THEOREMS),
+            Group("conv/probes-respelled", variants, project=project, theorems=THEOREMS),
             Group("conv/helo-all-configurations", helo, exhaustive=True, project=project, theorems=THEOREMS)]
 
 
